@@ -25,7 +25,7 @@ ASSUMPTIONS = [
     "family membership is asserted there",
     "ValueError for unknown ids / undecodable values is documented behaviour and not a network failure",
 ]
-MUST = ["damaged_frames_not_a_refusal", "os_error_on_send", "os_error_on_receive", "idle_error_keepalive", "tcp_connect_failure", "cfc_checked",
+MUST = ["cfc_checked_through_api", "damaged_frames_not_a_refusal", "os_error_on_send", "os_error_on_receive", "idle_error_keepalive", "tcp_connect_failure", "cfc_checked",
         "cfc_after_rejection", "cfc_checked_overlapping_calls", "entry_points_under_fault", "settings_read_with_refused_registers", "api_calls_under_fault", "ident_payloads", "discover_payloads", "failed_exception_seen",
         "rejected_exception_seen"]
 EXHAUSTIVE = {"quick": False, "thorough": False}
@@ -304,7 +304,8 @@ def run_c(case, part):
             except asyncio.CancelledError as e:
                 results.append((c, "CancelledError", str(e)))
             except Exception as e:      # noqa
-                results.append((c, type(e).__name__, str(getattr(e, "message", "") or e)[:80], isinstance(e, g.InverterError)))
+                results.append((c, type(e).__name__, str(getattr(e, "message", "") or e)[:80], isinstance(e, g.InverterError),
+                                getattr(e, "consecutive_failures_count", None)))
         return None
 
     import asyncio
@@ -318,6 +319,7 @@ def run_c(case, part):
         vs.append((f"C09/{tag}/setup", f"{case}: {run.error!r}"))
     no_answer = mode in ("silent", "eof") or (isinstance(mode, list) and mode[0] in ("recverr", "senderr", "connect")) \
         or ((mode == "garbage" or (isinstance(mode, list) and mode[0] == "junk")) and port != 502)
+    prev_cfc = 0
     for r in results:
         c, o = r[0], r[1]
         part.count("api_calls_under_fault")
@@ -330,6 +332,16 @@ def run_c(case, part):
             vs.append((f"C09/{tag}/rejected-without-refusal", f"{c[0]}{c[1:]!r} under {mode}: RequestRejectedException although the inverter refused nothing"))
         if o == "RequestFailedException":
             part.count("failed_exception_seen")
+            # the count reported through EVERY public entry point of every family: while the inverter cannot be reached no request
+            # succeeds, so each failing call reports at least 1 and more than the failing call before it
+            cfc = r[4] if len(r) > 4 else None
+            if no_answer:
+                part.count("cfc_checked_through_api")
+                if not isinstance(cfc, int) or cfc <= prev_cfc:
+                    vs.append((f"C09/{tag}/consecutive-failures-count",
+                               f"{c[0]}{c[1:]!r} under device fault {mode} (port {port}, no request can succeed): RequestFailedException reports "
+                               f"consecutive_failures_count={cfc}; the previous failing call reported {prev_cfc}"))
+                prev_cfc = cfc if isinstance(cfc, int) else prev_cfc
         if o == "RequestRejectedException":
             part.count("rejected_exception_seen")
     for le in run.loop_errors:
